@@ -75,15 +75,17 @@ fn run_scanner(backend: u8, class: u8, data: &[u8], start: usize) -> usize {
             (B_SWAR, CL_URI) => simd::swar_uri(&mut b),
             (B_SWAR, CL_VALUE) => simd::swar_header_value(&mut b),
             (B_SWAR, _) => simd::swar_header_name(&mut b),
-            #[cfg(not(miri))]
+            #[cfg(all(not(miri), not(verif_nosimd)))]
             (B_SSE42, CL_URI) => simd::sse42_uri(&mut b),
-            #[cfg(not(miri))]
+            #[cfg(all(not(miri), not(verif_nosimd)))]
             (B_SSE42, _) => simd::sse42_header_value(&mut b),
-            #[cfg(not(miri))]
+            #[cfg(all(not(miri), not(verif_nosimd)))]
             (B_AVX2, CL_URI) => simd::avx2_uri(&mut b),
-            #[cfg(not(miri))]
+            #[cfg(all(not(miri), not(verif_nosimd)))]
             (B_AVX2, _) => simd::avx2_header_value(&mut b),
-            #[cfg(miri)]
+            // no SSE4.2 / AVX2 modules in this build of httparse (Miri, or the harness built
+            // against a SIMD-disabled httparse; C12 is never run from that harness)
+            #[cfg(any(miri, verif_nosimd))]
             (B_SSE42, _) | (B_AVX2, _) => {}
             (B_NEON, c) => neon_call(c, &mut b),
             (_, CL_URI) => simd::dispatch_uri(&mut b),
